@@ -3,6 +3,9 @@
 package main
 
 import (
+	"bufio"
+	"sync"
+	"time"
 	"context"
 	"encoding/json"
 	"errors"
@@ -13,6 +16,8 @@ import (
 
 	"go.uber.org/zap"
 	"go.uber.org/zap/exp/zapslog"
+	"go.uber.org/zap/zapio"
+	"go.uber.org/zap/zaptest/observer"
 	"go.uber.org/zap/zapcore"
 )
 
@@ -242,6 +247,30 @@ func replayOddFaults() (finds []Finding) {
 			}
 		}
 	}
+	// (f) a zapio.Writer that is written to again after a Sync, with other loggers busy in between: the writer's
+	// pending fragment is its own, and so is everybody else's context
+	{
+		ocore, ologs := observer.New(zapcore.DebugLevel)
+		zw := &zapio.Writer{Log: zap.New(ocore), Level: zapcore.InfoLevel}
+		zw.Write([]byte("hello "))
+		zw.Sync()
+		zw.Write([]byte("wor"))
+		child := lg.With(zap.Int("request", 1), zap.Reflect("r", []int{1, 2}))
+		m := emit("a logger derived and used while a zapio.Writer holds a fragment after a Sync", func() { child.Info("unrelated", zap.String("k", "v")) })
+		intact("logger used next to a zapio.Writer", m, "request", 1)
+		zw.Write([]byte("ld\n"))
+		m = emit("the same logger again", func() { child.Info("unrelated2") })
+		intact("logger used next to a zapio.Writer", m, "request", 1)
+		zw.Write([]byte("tail"))
+		zw.Close()
+		got := []string{}
+		for _, e := range ologs.All() {
+			got = append(got, e.Message)
+		}
+		if fmt.Sprint(got) != fmt.Sprint([]string{"hello ", "world", "tail"}) {
+			add("value", "zapio.Writer written to again after a Sync while other loggers were busy logged %q, the stream's lines are [\"hello \" \"world\" \"tail\"]", got)
+		}
+	}
 	_ = context.Background
 	return finds
 }
@@ -314,6 +343,92 @@ func sharedFileLines() (finds []Finding) {
 			add("entry-lost", "three loggers sharing one output file: entry %q is not in the file (the file has %d lines)", trunc(m), len(lines))
 		case n > 1:
 			add("entry-duplicated", "three loggers sharing one output file: entry %q is in the file %d times", trunc(m), n)
+		}
+	}
+	return finds
+}
+
+// a buffering destination that is only safe under the lock zapcore.Lock provides
+type ofBufSink struct {
+	w *bufio.Writer
+}
+
+func (s *ofBufSink) Write(p []byte) (int, error) { return s.w.Write(p) }
+func (s *ofBufSink) Sync() error                 { return s.w.Flush() }
+
+type ofGateDevice struct {
+	mu      sync.Mutex
+	data    []byte
+	entered chan struct{}
+	release chan struct{}
+	once    sync.Once
+}
+
+func (d *ofGateDevice) Write(p []byte) (int, error) {
+	d.once.Do(func() { close(d.entered); <-d.release })
+	d.mu.Lock()
+	d.data = append(d.data, p...)
+	d.mu.Unlock()
+	return len(p), nil
+}
+
+// lockedBufferedSinkLines: logger A's entry overflows the buffer of a Lock-protected buffering sink and is being
+// flushed to a slow device when another goroutine syncs the logger. The device ends up with every entry once, one
+// JSON object per line. Keys: "invalid-json", "entry-lost", "entry-duplicated".
+func lockedBufferedSinkLines() (finds []Finding) {
+	add := func(key, f string, a ...interface{}) {
+		if len(finds) < 4 {
+			finds = append(finds, Finding{Key: key, What: fmt.Sprintf(f, a...)})
+		}
+	}
+	for _, viaCombine := range []bool{false, true} {
+		dev := &ofGateDevice{entered: make(chan struct{}), release: make(chan struct{})}
+		buffered := &ofBufSink{bufio.NewWriterSize(dev, 256)}
+		var ws zapcore.WriteSyncer = zapcore.Lock(buffered)
+		if viaCombine {
+			ws = zap.CombineWriteSyncers(buffered)
+		}
+		lg := zap.New(zapcore.NewCore(zapcore.NewJSONEncoder(zapcore.EncoderConfig{MessageKey: "msg", LevelKey: "level", EncodeLevel: zapcore.LowercaseLevelEncoder}), ws, zapcore.DebugLevel))
+		lg.Info("first", zap.String("pad", strings.Repeat("a", 100)))
+		adone := make(chan struct{})
+		go func() { defer close(adone); lg.Info("second", zap.String("pad", strings.Repeat("b", 200))) }() // overflows: flush to the device
+		select {
+		case <-dev.entered:
+		case <-time.After(2 * time.Second):
+			close(dev.release)
+			<-adone
+			add("harness", "the overflowing entry never reached the device")
+			continue
+		}
+		bdone := make(chan struct{})
+		go func() { defer close(bdone); lg.Sync(); lg.Info("third", zap.String("pad", strings.Repeat("c", 50))); lg.Sync() }()
+		select {
+		case <-bdone:
+		case <-time.After(40 * time.Millisecond):
+		}
+		close(dev.release)
+		<-adone
+		<-bdone
+		lg.Sync()
+		dev.mu.Lock()
+		data := string(dev.data)
+		dev.mu.Unlock()
+		seen := map[string]int{}
+		for i, l := range strings.Split(strings.TrimSuffix(data, "\n"), "\n") {
+			if err := strictJSONObjectLine([]byte(l), ""); err != nil {
+				add("invalid-json", "a Lock-protected buffering sink (via CombineWriteSyncers: %v): one goroutine's entry is being flushed to a slow device while another goroutine calls Sync; line %d on the device is not one JSON object: %v: %q", viaCombine, i+1, err, trunc(l))
+				continue
+			}
+			var m map[string]interface{}
+			json.Unmarshal([]byte(l), &m)
+			seen[fmt.Sprint(m["msg"])]++
+		}
+		for _, m := range []string{"first", "second", "third"} {
+			if seen[m] == 0 {
+				add("entry-lost", "Lock-protected buffering sink, Sync during another goroutine's flush: entry %q is not on the device: %q", m, trunc(data))
+			} else if seen[m] > 1 {
+				add("entry-duplicated", "Lock-protected buffering sink, Sync during another goroutine's flush: entry %q is on the device %d times", m, seen[m])
+			}
 		}
 	}
 	return finds
